@@ -80,7 +80,9 @@ class UnwhitenedVariationalStrategy(_VariationalStrategy):
         # retrieve the variational mean, m and covariance matrix, S.
         var_cov_root = TriangularLinearOperator(self._variational_distribution.chol_variational_covar.tril())
         var_cov = CholLinearOperator(var_cov_root)
-        var_mean = self.variational_distribution.mean  # .unsqueeze(-1)
+        # m is the mean of q(u) itself (not of a whitened variable): the pseudo targets below are relative to the
+        # prior mean, which amortized_exact_gp adds back
+        var_mean = self.variational_distribution.mean - self.prior_distribution.mean
         if var_mean.shape[-1] != 1:
             var_mean = var_mean.unsqueeze(-1)
 
